@@ -782,6 +782,13 @@ class ExprMixin:
                 return base[lo:hi]
             zb = to_z3(base)
             ln = z3.Length(zb)
+            # lean forms (z3's substr already clamps out-of-range offsets/lengths the way Python slicing does)
+            if isinstance(lo, int) and lo >= 0 and hi is None:
+                return z3.SubString(zb, lo, ln - lo)
+            if lo is None and isinstance(hi, int) and hi < 0:
+                return z3.SubString(zb, 0, ln + hi)
+            if (lo is None or (isinstance(lo, int) and lo >= 0)) and isinstance(hi, int) and hi >= 0:
+                return z3.SubString(zb, lo or 0, hi - (lo or 0)) if hi > (lo or 0) else ""
             a = self.clamp(lo, ln, 0)
             b = self.clamp(hi, ln, ln)
             return z3.SubString(zb, a, z3.If(b - a > 0, b - a, 0))
